@@ -134,41 +134,55 @@ func (worldC) genReload(r *core.Rand, env *core.Env) CCase {
 		c.Ops = append(c.Ops, late, COp{T: cwTPrologue, K: "flush"})
 	}
 	c.Ops = append(c.Ops, COp{T: cwTPrologue, K: "reopen"})
-	var per [cwNTasks][]COp
-	for s := 0; s < c.NSeries; s++ {
-		t := cwTWriter1 + s
-		for i, n := 0, r.Range(2, 4); i < n; i++ {
-			op := COp{T: t, K: "w"}
-			for j, m := 0, r.Range(1, 2); j < m; j++ {
-				tt := next[s] + r.Intn(3)
-				if i > 0 && r.Bool(0.5) {
-					tt = r.Intn(next[s] + 1) // late point / overwrite
-				} else if tt >= next[s] {
-					next[s] = tt + 1
+	// round 1: the first write starts the reload; flushes (and sometimes a merge) race with it
+	// round 2 (after another clean restart): writes incl. late points, merges, flushes, queries
+	for round := 0; round < 2; round++ {
+		var per [cwNTasks][]COp
+		for s := 0; s < c.NSeries; s++ {
+			t := cwTWriter1 + s
+			for i, n := 0, r.Range(1, 3); i < n; i++ {
+				op := COp{T: t, K: "w"}
+				for j, m := 0, r.Range(1, 2); j < m; j++ {
+					tt := next[s] + r.Intn(3)
+					if (round > 0 || i > 0) && r.Bool(0.5) {
+						tt = r.Intn(next[s] + 1) // late point / overwrite
+					} else if tt >= next[s] {
+						next[s] = tt + 1
+					}
+					if tt >= sNumTimes {
+						tt = sNumTimes - 1
+					}
+					op.Rows = append(op.Rows, SRow{M: 0, S: s, T: tt, F: core.Pick(r, []int{15, 15, 8, 4})})
 				}
-				if tt >= sNumTimes {
-					tt = sNumTimes - 1
-				}
-				op.Rows = append(op.Rows, SRow{M: 0, S: s, T: tt, F: core.Pick(r, []int{15, 15, 8, 4})})
+				per[t] = append(per[t], op)
 			}
-			per[t] = append(per[t], op)
+		}
+		for rd := 0; rd < 2; rd++ {
+			for i, n := 0, r.Range(1, 2+round); i < n; i++ {
+				per[cwTReader1+rd] = append(per[cwTReader1+rd], COp{T: cwTReader1 + rd, K: "q", M: 0, A: 0, B: sNumTimes - 1, Desc: r.Bool(0.3), Chunk: 1024, Par: 1})
+			}
+		}
+		for i, n := 0, r.Range(1, 2); i < n; i++ {
+			per[cwTFlusher] = append(per[cwTFlusher], COp{T: cwTFlusher, K: "flush"})
+		}
+		if round > 0 || r.Bool(0.3) {
+			for i, n := 0, r.Range(1, 2); i < n; i++ {
+				per[cwTCompact] = append(per[cwTCompact], COp{T: cwTCompact, K: "merge", Force: true})
+			}
+		}
+		if round > 0 && r.Bool(0.2) {
+			per[cwTCloser] = append(per[cwTCloser], COp{T: cwTCloser, K: "close"})
+		}
+		cwInterleave(r, &c, &per)
+		if round == 0 {
+			if r.Bool(0.7) {
+				c.Ops = append(c.Ops, COp{T: cwTPrologue, K: "reopen"})
+			} else {
+				break
+			}
 		}
 	}
-	for rd := 0; rd < 2; rd++ {
-		for i, n := 0, r.Range(2, 3); i < n; i++ {
-			per[cwTReader1+rd] = append(per[cwTReader1+rd], COp{T: cwTReader1 + rd, K: "q", M: 0, A: 0, B: sNumTimes - 1, Desc: r.Bool(0.3), Chunk: 1024, Par: 1})
-		}
-	}
-	for i, n := 0, r.Range(2, 3); i < n; i++ {
-		per[cwTFlusher] = append(per[cwTFlusher], COp{T: cwTFlusher, K: "flush"})
-	}
-	for i, n := 0, r.Range(1, 2); i < n; i++ {
-		per[cwTCompact] = append(per[cwTCompact], COp{T: cwTCompact, K: "merge", Force: true})
-	}
-	if r.Bool(0.2) {
-		per[cwTCloser] = append(per[cwTCloser], COp{T: cwTCloser, K: "close"})
-	}
-	cwInterleave(r, &c, &per)
+	cwInterleave(r, &c, &[cwNTasks][]COp{})
 	return c
 }
 
@@ -353,6 +367,48 @@ func (worldC) genMixed(r *core.Rand, env *core.Env) CCase {
 		t := core.Pick(r, live)
 		c.Ops = append(c.Ops, per[t][0])
 		per[t] = per[t][1:]
+	}
+	if !drop && r.Bool(0.3) {
+		// a second round after a clean restart: more writes (incl. late points), a flush, a merge, queries
+		c.Ops = append(c.Ops, COp{T: cwTPrologue, K: "reopen"})
+		var per2 [cwNTasks][]COp
+		for w := 0; w < nW; w++ {
+			t := cwTWriter1 + w
+			for i, n := 0, r.Range(1, 2); i < n; i++ {
+				op := COp{T: t, K: "w"}
+				for j, k := 0, r.Range(1, 3); j < k; j++ {
+					m, s := r.Intn(c.NMst), w+nW*r.Intn(2)
+					if s >= c.NSeries {
+						s = w
+					}
+					if s >= c.NSeries {
+						continue
+					}
+					tt := fresh(m, s)
+					if r.Bool(0.4) {
+						tt = r.Intn(next[[2]int{m, s}] + 1)
+						if tt >= sNumTimes {
+							tt = sNumTimes - 1
+						}
+					}
+					op.Rows = append(op.Rows, SRow{M: m, S: s, T: tt, F: mask()})
+				}
+				if len(op.Rows) > 0 {
+					per2[t] = append(per2[t], op)
+				}
+			}
+		}
+		for rd := 0; rd < 2; rd++ {
+			for i, n := 0, r.Range(1, 2); i < n; i++ {
+				per2[cwTReader1+rd] = append(per2[cwTReader1+rd], COp{T: cwTReader1 + rd, K: "q", M: r.Intn(c.NMst), A: 0, B: sNumTimes - 1, Desc: r.Bool(0.3), Chunk: core.Pick(r, []int{1, 1024}), Par: 1})
+			}
+		}
+		per2[cwTFlusher] = append(per2[cwTFlusher], COp{T: cwTFlusher, K: "flush"})
+		per2[cwTCompact] = append(per2[cwTCompact], COp{T: cwTCompact, K: "merge", Force: true})
+		if r.Bool(0.5) {
+			per2[cwTFlusher] = append(per2[cwTFlusher], COp{T: cwTFlusher, K: "flush"})
+		}
+		cwInterleave(r, &c, &per2)
 	}
 	if r.Bool(0.1) {
 		// a burst: two operations of different tasks race inside one scheduler step
